@@ -244,6 +244,7 @@ package service
 //@   trace[C02,one-relay-goroutine] exactly 1 go:service.proxyConnection$1 when evres("transport.StreamDialer.DialStream", 1) == nil
 //@   trace[C05,one-dial] exactly 1 transport.StreamDialer.DialStream
 //@   trace[C11,context-only-for-dialing] each transport.StreamDialer.DialStream satisfies $arg0 == ctx
+//@   trace[C02,no-deadline-during-relay] never transport.StreamConn.Set*Deadline
 //@   trace[C11,relay-not-tied-to-context] each * satisfies uses(ctx) ==> evis("transport.StreamDialer.DialStream")
 
 // client-to-target direction of the relay
@@ -259,6 +260,7 @@ package service
 //@   trace[C02,result-delivered-once] exactly 1 send
 //@   trace[C02,result-after-fin] before transport.StreamConn.CloseWrite send
 //@   trace[C06,relay-error-drained] atleast 1 io.Copy
+//@   trace[C02,no-deadline-during-relay] never transport.StreamConn.Set*Deadline
 
 //@ func TCPConnMetrics.AddClosed
 //@   abstract
